@@ -281,7 +281,7 @@ class FlowIRExperimentConfiguration:
 
         system_vars = system_vars or {}
         config_patches = config_patches or {}
-        variable_files = list(set(variable_files or []))
+        variable_files = list(dict.fromkeys(variable_files or []))
 
         out_errors = []
         self.file_format = file_format
@@ -482,7 +482,7 @@ class FlowIRExperimentConfiguration:
 
         systemvars = systemvars or {}
         config_patches = config_patches or {}
-        variable_files = list(set(variable_files or []))
+        variable_files = list(dict.fromkeys(variable_files or []))
 
         out_errors = []
 
